@@ -100,6 +100,17 @@ def make_cfgs(rng, n, months_choices=(12, 13, 24)):
         }
         if cfg["flow_type"] == "SYSTEM":
             cfg["flow"] = round(cfg["flow"] * rng.choice([4, 12, 30]), 3)
+        # force every outcome of the search into every sample: unmet-but-continued at the maximum
+        # height (loads far too large), at the minimum height (negligible loads), and the error
+        if i % 8 == 3:
+            cfg["scale"], cfg["cont"], cfg["profile"] = 6.0 + (i % 5), True, "atlanta"
+            cfg["loads"] = [x * cfg["scale"] for x in ghelib.atlanta_loads()]
+        elif i % 8 == 5:
+            cfg["scale"], cfg["cont"], cfg["profile"] = 0.002, True, "atlanta"
+            cfg["loads"] = [x * cfg["scale"] for x in ghelib.atlanta_loads()]
+        elif i % 8 == 7:
+            cfg["scale"], cfg["cont"], cfg["profile"] = 6.0 + (i % 3), False, "atlanta_neg"
+            cfg["loads"] = [-x * cfg["scale"] for x in ghelib.atlanta_loads()]
         cfgs.append(cfg)
     return cfgs
 
@@ -411,7 +422,8 @@ def replay_line(rec):
             return None
         geom = cfg["geom"]
         stop, start, step = geom[2], geom[3], geom[4]      # max_spacing, min_spacing, spacing_step
-        body = rows[:-1]       # last row repeats the selection
+        # the last row repeats the selection, except on the early return of the unmet-but-continued branch
+        body = rows[:-1] if len(rows) > 2 else rows
         table, esub, tr = {}, {}, []
         e1 = SENT
         sp_rows = [r for r in body if isinstance(r[0], float)]
